@@ -70,6 +70,10 @@ def explicit_h_on_stereocentre(m):
     return any(atoms[x].atomic_number == 1 for n in cent for x in bonds[n])
 
 
+def has_labels(m):
+    return any(a.stereo is not None for _, a in m.atoms()) or any(b.stereo is not None for *_, b in m.bonds())
+
+
 def expected_after_read(m):
     """what a reader opened with calc_cis_trans=True has to return for m: the same labels, and for stereogenic double bonds the
     molecule leaves unlabelled the label its 2D coordinates define (an MDL/MRV file has no 'unspecified' mark written by these
